@@ -85,7 +85,7 @@ theorem C09_exec_never_crashes (d : Nat) (nodes : List Node) (ctx : Ctx) (st : S
   intro h
   have hst' : StOk nbq st := fun c hc => by rw [show allCmdsL nbq c = allLinesL nonBlank c from allCmdsL_text nonBlank c]; exact hst c hc
   have hnodes' : allCmdsL nbq nodes = true := by rw [show allCmdsL nbq nodes = allLinesL nonBlank nodes from allCmdsL_text nonBlank nodes]; exact hnodes
-  have h1 := (exec_hereditary hspec_nonBlank d nodes ctx st hnodes' hst' (fsOk_nonBlank ctx.fs)).ni x h
+  have h1 := (exec_hereditary hspec_nonBlank d nodes ctx st hnodes' hst' (fsOk_nonBlank ctx.fs) trivial).ni x h
   exact h1 (C09_interpreter_crash_only_blank_line d nodes ctx st x h)
 
 theorem initEnv_ok : ∀ c ∈ ({ env := initEnv } : St).codes, allLinesL nonBlank c = true := by
